@@ -21,6 +21,9 @@ TEXTS = ['a', 'b', 'o', 'fo', 'ba', ' ', 'x', 'A', 'e', 'a b', 'o-', 'é', 'zz',
 
 
 ANTH = ['1', '2', '-1', '..-2', '2..', '..-3', '1,2', '2..-2', '..', '-2..', '3', '1..2', '..1', '-3..-2', '2,..-2']
+_ANTH_K = 0
+ANTH_T = ['{1}:{2}', '{2}/{1}', '{n}:{1}', 'x{-1}', '{1}+{3}', '{..2}-{n}', '{1}{2}', '{2..}:{1}']
+CSV = ['a,b,c', 'one,two', 'solo', 'k,v,', ',lead', 'x,,y', 'p q,r s', 'é,ü,']
 FIELDS = ['one two three', 'alpha beta', 'solo', 'a b c d', 'x  y', ' lead in', 'tail out ', 'k:v w', 'é ü']
 
 
@@ -258,8 +261,16 @@ def gen_session(r, tier, force=None):
         if force:
             tmpl = force
         if tmpl is tmpl_accept_nth:
-            opts['anth'] = r.choice(ANTH)
-            lines = [r.choice(FIELDS) for _ in range(r.randint(1, 6))]
+            global _ANTH_K
+            _ANTH_K += 1
+            # in turn: a template with the delimiter given after it, a range over AWK fields, anything
+            opts['anth'] = r.choice(ANTH_T[:3] + ANTH_T[4:]) if _ANTH_K % 3 == 1 else r.choice(ANTH) if _ANTH_K % 3 == 2 else r.choice(ANTH + ANTH_T)
+            if _ANTH_K % 3 == 1 or (_ANTH_K % 3 == 0 and r.random() < 0.5):
+                # a literal delimiter, given after --accept-nth on the command line as often as before it
+                opts['dl'], opts['dlfirst'] = '44', int(_ANTH_K % 3 != 1 and r.random() < 0.4)
+                lines = ['a,b,c'] + [r.choice(CSV) for _ in range(r.randint(1, 5))]
+            else:
+                lines = [r.choice(FIELDS) for _ in range(r.randint(1, 6))]
             opts['noinput'], opts['tac'] = 0, 0
         if tmpl is tmpl_words_unicode:
             opts['noinput'] = 0
@@ -324,8 +335,13 @@ def session_args(o):
         a.append('--track')
     if o.get('noinput'):
         a.append('--no-input')
+    dl = ['--delimiter=' + bytes(int(x) for x in str(o['dl']).split('.')).decode()] if str(o.get('dl', '_')) != '_' else []
+    if o.get('dlfirst'):
+        a += dl
     if o.get('anth', '_') != '_':
         a.append('--accept-nth=' + o['anth'])
+    if not o.get('dlfirst'):
+        a += dl
     if o.get('expect', '_') != '_':
         a.append('--expect=' + o['expect'])
     return a
@@ -401,7 +417,7 @@ def drv_sessions(tier, seed, ctx):
     r = random.Random(seed * 104729 + 7)
     # every directed template is used by at least three sessions of any run
     tm = [tmpl_selection, tmpl_kill_ring, tmpl_burst, tmpl_track, tmpl_exclude_keeps, tmpl_hidden_input, tmpl_kill_line, tmpl_empty_accept,
-          tmpl_pick_then_all, tmpl_words_unicode, tmpl_accept_nth]
+          tmpl_pick_then_all, tmpl_words_unicode, tmpl_accept_nth, tmpl_accept_nth]
     scs = [gen_session(r, tier, force=tm[i % len(tm)] if i < 3 * len(tm) else None) for i in range(max(n, 3 * len(tm) + 16))]
     notes = []
 
@@ -462,7 +478,7 @@ def replay(rp, ctx):
     toks = lhs.split(' ')
     opts = dict(kv.split('=') for kv in toks[2].split(';'))
     for k in opts:
-        if k not in ('layout', 'anth', 'expect'):
+        if k not in ('layout', 'anth', 'expect', 'dl'):
             opts[k] = int(opts[k])
     dec = lambda s: bytes(int(x) for x in s.split(',')).decode('utf-8', 'replace') if s != '-' else ''
     lines = [] if toks[3] == '_' else [dec(x) for x in toks[3].split('|')]
